@@ -84,6 +84,8 @@ func (c *ctx) expr(e ast.Expr) string {
 			return "(g_mul " + a + " " + b + ")"
 		case token.QUO:
 			return "(g_quot " + a + " " + b + ")"
+		case token.REM:
+			return "(g_rem " + a + " " + b + ")"
 		case token.AND:
 			return "(g_and " + a + " " + b + ")"
 		case token.OR:
